@@ -646,3 +646,124 @@ Proof.
         rewrite init_profile_pools_other; [exact HP|]. intros X. apply Hn. left. exact X. }
   intros pfs pf ND Hin. apply G; [exact ND | left; exact Hin].
 Qed.
+
+(* ---------------------------------------------------------------- direction changes *)
+From Coq Require Import Permutation.
+
+(* SetDirection: no lease changes, and (under the invariant) the free list is only permuted *)
+Lemma setdir_pool_safe c st b st' o :
+  Inv c st -> pool_step Repaired c st (CSetDir b) = Some (st', o) ->
+  leases st' = leases st /\ Permutation (free st') (free st) /\ Inv c st'.
+Proof.
+  intros HI H. assert (HI' : Inv c st') by (eapply inv_step; eauto).
+  assert (L : leases st' = leases st).
+  { cbn [pool_step] in H. destruct (Bool.eqb b (asc st)); inversion H; subst; reflexivity. }
+  split; [exact L|]. split; [|exact HI'].
+  destruct HI as [ND M]. destruct HI' as [ND' M'].
+  apply NoDup_Permutation; [exact ND' | exact ND|].
+  intros a. rewrite M', M, L. reflexivity.
+Qed.
+
+(* SetAllocDirection (every allocator of the three families): no lease map and no allocator geometry
+   changes, and every allocator keeps its invariant - so whatever is allocated after any number of HA role
+   changes is still assignable and unheld (C01_registry_alloc_unique covers histories containing them) *)
+Lemma setdir_registry_safe v st b st' o :
+  reg_step v st (RSetDir b) = Some (st', o) ->
+  (forall f k, leases_of st' f k = leases_of st f k) /\ (forall f k, cfg_of st' f k = cfg_of st f k).
+Proof.
+  intros H. destruct (reg_step_view _ _ _ _ _ H) as [CF LV]. split; [|exact CF].
+  intros f k. rewrite LV. reflexivity.
+Qed.
+
+(* ResolveV6 with whatever registry there is *)
+Lemma resolve6_opt_staked v r s cx obsna obspd wna wpd r' cx' x :
+  resolve6_ctx_opt v r s cx obsna obspd wna wpd = Some (r', cx', x) -> r6_nil x = false ->
+  match r with
+  | Some st =>
+      exists st', r' = Some st' /\
+      (forall a, r6_na x = Some a ->
+         match c6_na cx with
+         | None => staked_ans v st' FNA s (OA a)
+         | Some b => b = a /\ (staked v st' FNA s (RA (Some a)) \/ unmanaged v st FNA (RA (Some a)))
+         end) /\
+      (forall o, r6_pd x = Some o -> c6_pd cx = None /\ staked_ans v st' FPD s o) /\
+      (forall p, c6_pd cx = Some p -> staked v st' FPD s (RP p) \/ unmanaged v st FPD (RP p))
+  | None =>
+      (* no registry: nothing was allocated; only what the context brought is there *)
+      r' = None /\ cx' = cx /\ r6_na x = c6_na cx /\ r6_pd x = None /\ r6_napool x = None /\ r6_pdpool x = None /\
+      (c6_na cx <> None \/ c6_pd cx <> None)
+  end.
+Proof.
+  unfold resolve6_ctx_opt. intros H NN. destruct r as [st|].
+  - destruct (resolve6_ctx v st s cx obsna obspd wna wpd) as [[[st1 cx1] x1]|] eqn:E; [|discriminate].
+    inversion H; subst. exists st1. split; [reflexivity|].
+    unfold resolve6_ctx in E.
+    destruct (resolve6 v st (c6_pf cx) (c6_naov cx) (c6_pdov cx) (c6_vrf cx) s (c6_na cx) (c6_pd cx) obsna obspd wna wpd)
+      as [[st2 x2]|] eqn:E2; [|discriminate].
+    inversion E; subst. eapply resolve6_staked; eauto.
+  - destruct obsna; [discriminate|]. destruct obspd; [discriminate|].
+    injection H as H1 H2 H3. subst r' cx' x. cbn [r6_nil r6_na r6_pd r6_napool r6_pdpool] in *.
+    repeat split; try reflexivity.
+    destruct (c6_na cx); [left; discriminate|]. destruct (c6_pd cx); [right; discriminate | discriminate NN].
+Qed.
+
+(* ---------------------------------------------------------------- what a direction means for the code's own policy *)
+From Coq Require Import Sorted.
+Definition lt_snd (x y : addr) : Prop := snd x < snd y.
+
+Lemma range_sorted f lo : forall n s,
+  StronglySorted lt_snd (map (fun i => (f, lo + N.of_nat i)) (seq s n)).
+Proof.
+  induction n as [|n IH]; intros s; cbn [seq map]; constructor; [apply IH|].
+  apply Forall_forall. intros y Hy. apply in_map_iff in Hy. destruct Hy as [j [<- Hj]].
+  apply in_seq in Hj. unfold lt_snd. cbn [snd]. lia.
+Qed.
+
+Lemma sorted_filter {A} (R : A -> A -> Prop) (g : A -> bool) l :
+  StronglySorted R l -> StronglySorted R (filter g l).
+Proof.
+  induction l as [|x r IH]; intros S; [constructor|]. inversion S as [|? ? Sr Fx]; subst.
+  cbn [filter]. destruct (g x); [|apply IH; exact Sr]. constructor; [apply IH; exact Sr|].
+  apply Forall_forall. intros y Hy. apply filter_In in Hy. destruct Hy as [Hy _].
+  eapply Forall_forall in Fx; eauto.
+Qed.
+
+Lemma sorted_head_least {A} (R : A -> A -> Prop) x l : StronglySorted R (x :: l) -> forall y, In y l -> R x y.
+Proof. intros S y Hy. inversion S as [|? ? _ F]; subst. eapply Forall_forall in F; eauto. Qed.
+
+Lemma sorted_last_greatest {A} (R : A -> A -> Prop) : forall l x,
+  StronglySorted R (l ++ [x]) -> forall y, In y l -> R y x.
+Proof.
+  induction l as [|z r IH]; intros x S y Hy; [contradiction|].
+  cbn [app] in S. inversion S as [|? ? Sr F]; subst. destruct Hy as [->|Hy].
+  - eapply Forall_forall in F; [exact F|]. apply in_or_app. right. left. reflexivity.
+  - eapply IH; eauto.
+Qed.
+
+(* right after the free list has been (re)built - at construction and at every real direction change - the
+   code's own allocation policy (pop the end of the slice) takes the LOWEST free assignable address when the
+   direction is ascending and the HIGHEST when it is descending.  (A statement about the transcribed policy;
+   the correspondence deliberately does not constrain which free address an implementation picks.) *)
+Lemma rebuilt_direction c m b :
+  let st := {| free := build_free c m b; leases := m; asc := b |} in
+  match lifo_choice st with
+  | Some a => In a (free st) /\
+              forall x, In x (free st) -> x <> a -> if b then snd a < snd x else snd x < snd a
+  | None => free st = []
+  end.
+Proof.
+  cbv zeta. unfold lifo_choice. cbn [free]. unfold build_free.
+  set (l := filter _ (range_addrs c)).
+  assert (S : StronglySorted lt_snd l) by (apply sorted_filter; unfold range_addrs; apply range_sorted).
+  destruct b.
+  - rewrite rev_involutive. destruct l as [|a r]; [reflexivity|].
+    split; [apply -> in_rev; left; reflexivity|].
+    intros x Hx Ne. apply <- in_rev in Hx. destruct Hx as [->|Hx]; [contradiction|].
+    apply (sorted_head_least lt_snd a r S x Hx).
+  - destruct (rev l) as [|a r] eqn:R.
+    + assert (l = []) as -> by (rewrite <- (rev_involutive l), R; reflexivity). reflexivity.
+    + assert (E : l = rev r ++ [a]) by (rewrite <- (rev_involutive l), R; reflexivity).
+      split; [rewrite E; apply in_or_app; right; left; reflexivity|].
+      intros x Hx Ne. rewrite E in Hx, S. apply in_app_or in Hx. destruct Hx as [Hx|[->|[]]]; [|contradiction].
+      apply (sorted_last_greatest lt_snd (rev r) a S x Hx).
+Qed.
